@@ -28,6 +28,7 @@ import (
 	"go/types"
 	"math/big"
 	"os"
+	"os/exec"
 	"path/filepath"
 	"regexp"
 	"sort"
@@ -657,4 +658,112 @@ func buildConfigObligation(repo string) *Obligation {
 	return &Obligation{Name: "module#build-configurations", Kind: "ground", Func: "module", Goal: mkBool(st == "unsat"), Props: []string{"C19", "C17"},
 		Text:   fmt.Sprintf("the assembly and purego builds differ only in the bodies of lookupProjectivePoint / lookupAffinePoint (%d non-test source files scanned: build constraints, file name suffixes, runtime.GOARCH / GOOS, CPU-feature packages)", nfiles),
 		Result: &SolveResult{Status: st, Solver: "ground", Backend: "ground", Output: strings.Join(bad, "\n")}}
+}
+
+var asmObligationRe = regexp.MustCompile(`^asm\.(lookupProjectivePoint|lookupAffinePoint)/idx=(\d+)\.(value|frame)$`)
+
+// asmReplay runs the real assembly routine (default build, no purego) on a table whose limbs are all distinct
+// and a destination pre-filled with a sentinel, and compares the result with the shared contract of the two
+// lookups: coordinates of entry idx-1 (idx = 0: the identity (0, R mod P, 0) resp. all zero), every other
+// byte of the destination untouched.
+func asmReplay(repo, routine string, idx int) *replayResult {
+	rr := &replayResult{Attempted: true}
+	logf := func(f string, a ...interface{}) { rr.Log = append(rr.Log, fmt.Sprintf(f, a...)) }
+	tblT, outT, ncoord := "projectivePointMultTable", "Point", 3
+	if routine == "lookupAffinePoint" {
+		tblT, outT, ncoord = "affinePointMultTable", "affinePoint", 2
+	}
+	src := fmt.Sprintf(`package secp256k1
+
+import (
+	"fmt"
+	"os"
+	"testing"
+	"unsafe"
+)
+
+func TestVerifAsmReplay(t *testing.T) {
+	out, err := os.Create(os.Getenv("VERIF_REPLAY_OUT"))
+	if err != nil {
+		t.Fatal(err)
+	}
+	defer out.Close()
+	var tbl %s
+	var dst %s
+	tb := unsafe.Slice((*uint64)(unsafe.Pointer(&tbl)), int(unsafe.Sizeof(tbl))/8)
+	for i := range tb {
+		tb[i] = 0x0101010101010101*uint64(i%%251+1) ^ uint64(i)<<32
+	}
+	db := unsafe.Slice((*byte)(unsafe.Pointer(&dst)), int(unsafe.Sizeof(dst)))
+	for i := range db {
+		db[i] = 0xa5
+	}
+	idx := %d
+	%s(&tbl, &dst, uint64(idx))
+	esz := int(unsafe.Sizeof(tbl[0]))
+	for i := range db {
+		want := byte(0xa5)
+		if i < %d {
+			if idx == 0 {
+				want = 0
+				if %d == 3 && i >= 32 && i < 40 {
+					want = byte(uint64(0x00000001000003d1) >> (8 * uint(i-32)))
+				}
+			} else {
+				eb := unsafe.Slice((*byte)(unsafe.Pointer(&tbl[idx-1])), esz)
+				want = eb[i]
+			}
+		}
+		if db[i] != want {
+			fmt.Fprintf(out, "MISMATCH byte %%d of the destination: got %%#02x want %%#02x\n", i, db[i], want)
+		}
+	}
+	fmt.Fprintln(out, "DONE")
+}
+`, tblT, outT, idx, routine, 32*ncoord, ncoord)
+	tmp, err := os.MkdirTemp("", "vcgo-asmreplay-")
+	if err != nil {
+		logf("harness: %v", err)
+		return rr
+	}
+	defer os.RemoveAll(tmp)
+	testFile := filepath.Join(tmp, "zz_verif_asmreplay_test.go")
+	_ = os.WriteFile(testFile, []byte(src), 0o644)
+	ovFile := filepath.Join(tmp, "ov.json")
+	_ = os.WriteFile(ovFile, []byte(fmt.Sprintf(`{"Replace": {%q: %q}}`, filepath.Join(repo, "zz_verif_asmreplay_test.go"), testFile)), 0o644)
+	outFile := filepath.Join(tmp, "out.txt")
+	cmd := exec.Command("go", "test", "-overlay", ovFile, "-vet=off", "-count=1", "-timeout", "60s", "-run", "^TestVerifAsmReplay$", ".")
+	cmd.Dir = repo
+	cmd.Env = append(os.Environ(), "GOFLAGS=-mod=mod", "GOPROXY=off", "GOSUMDB=off", "GOTOOLCHAIN=local", "GOARCH=amd64", "VERIF_REPLAY_OUT="+outFile)
+	if b, err := cmd.CombinedOutput(); err != nil {
+		logf("replay test did not run: %v: %s", err, trunc(string(b), 400))
+		rr.Attempted = false
+		return rr
+	}
+	data, _ := os.ReadFile(outFile)
+	rr.Input = fmt.Sprintf("%s(&tbl, &dst, %d) in the default (assembly) build; table limb i = 0x0101010101010101*(i%%251+1) ^ i<<32, destination pre-filled with 0xa5", routine, idx)
+	rr.Expected = "coordinate bytes of the destination = those of table entry idx-1 (idx = 0: the identity (0, R mod P, 0) / zero), every other byte untouched"
+	var mm []string
+	for _, ln := range strings.Split(string(data), "\n") {
+		if strings.HasPrefix(ln, "MISMATCH ") {
+			mm = append(mm, strings.TrimPrefix(ln, "MISMATCH "))
+		}
+	}
+	if !strings.Contains(string(data), "DONE") {
+		logf("the replay test did not complete")
+		rr.Attempted = false
+		return rr
+	}
+	if len(mm) > 0 {
+		rr.Failing = true
+		if len(mm) > 6 {
+			mm = append(mm[:6], fmt.Sprintf("... %d more", len(mm)-6))
+		}
+		rr.Observed = strings.Join(mm, "; ")
+		logf("the real assembly routine violates the contract on this input")
+	} else {
+		rr.Observed = "destination as specified"
+		logf("the real assembly routine meets the contract on this input: not a failing input")
+	}
+	return rr
 }
